@@ -215,6 +215,9 @@ def apiEntry (fix : Bool) (s : St) (t : Nat) (e : EntryOp) : St :=
     | some .block => { r.1 with ents := (e.id, { r.2.1 with exited := true }) :: r.1.ents }
     | _ => { r.1 with ents := (e.id, r.2.1) :: r.1.ents }
 
+/-- `if options.err != nil { ctx.SetError(options.err) }` -/
+def orErr (a b : Option String) : Option String := match a with | some x => some x | none => b
+
 /-- `api.TraceError` → `SentinelEntry.SetError`: ignored for a nil error and for an exited entry -/
 def apiTrace (s : St) (id : Nat) (err : Option String) : St :=
   match findE s.ents id with
@@ -231,7 +234,7 @@ def apiExit (s : St) (t : Nat) (id : Nat) (err : Option String) : St :=
   | none => s
   | some c =>
     if c.exited then s else
-    let c1 := { c with err := match err with | some x => some x | none => c.err }
+    let c1 := { c with err := orErr err c.err }
     let s1 := if c1.blocked then s else statCompleted s c1 t
     { s1 with ents := (id, { c1 with exited := true }) :: s1.ents }
 
@@ -279,8 +282,6 @@ structure Info where
   err : Option String
   done : Bool
 deriving DecidableEq, Repr
-
-def orErr (a b : Option String) : Option String := match a with | some x => some x | none => b
 
 /-- what the ops **addressed to `id`** amount to: the entry op, its time, the error set so far (by the
     chain's recover, by `trace`, by the first `exit`), and whether it is finished (blocked, or exited) -/
